@@ -177,3 +177,17 @@ package api
 //@   modifies nothing
 //@ iface api.FunctionDataCmdInterface.ReadCmdType
 //@   modifies nothing
+
+// ---------------------------------------------------------------------------------------
+// Log of local data updates through the API (C16): setn calls of FeatureLocalInterface.SetData so far;
+// setobj/setfct/setdata[k]: receiver, function and data of the k-th call
+//@ ghost setn int
+//@ ghost setobj map[int]any
+//@ ghost setfct map[int]model.FunctionType
+//@ ghost setdata map[int]any
+//@ modset SETLOG = setn, setobj, setfct, setdata
+//@ iface api.FeatureLocalInterface.SetData
+//@   ensures setn == old(setn) + 1 && setobj == store(old(setobj), old(setn), self) && setfct == store(old(setfct), old(setn), function) && setdata == store(old(setdata), old(setn), data)
+//@   ensures spawnn >= old(spawnn) && forall d int :: old(spawnn) <= d && d < spawnn ==> spawnfn[d] == methodid("(github.com/enbility/spine-go/api.EventHandlerInterface).HandleEvent")
+//@   ensures forall d int :: d < old(spawnn) ==> spawnfn[d] == old(spawnfn)[d]
+//@   modifies @SETLOG, @PUBLISH, outmisc, world
